@@ -446,6 +446,13 @@ where
     let runner: SimRunner = runa::build_runner(plan);
     let raw = Rc::new(RefCell::new(Vec::new()));
     let rec = Rc::new(RefCell::new(Recorder::new(core)));
+    // Where every entity of the plan can be told from every other by what it is, the tap keeps no `Source`
+    // alive: features that have finished are freed, and the features the parser builds later are allocated
+    // where they were - identity by address alone (a writer's cache, say) meets its ABA case.
+    if crate::plan::entities_distinct(plan) {
+        rec.borrow_mut().ptrs.release();
+    }
+    let rec2 = Rc::clone(&rec);
     let tap = Tap { inner: runner, log: Rc::clone(&raw), rec };
     let opts = cli::Opts { re_filter: None, tags_filter: None, parser: cli::Empty, runner: runa::build_cli(plan), writer: wcli, custom: cli::Empty };
     let cuc = Cucumber::<SimWorld, _, (), _, _, cli::Empty>::custom(SimParser(stream), tap, writer).with_cli(opts);
@@ -462,5 +469,6 @@ where
         p.downcast_ref::<String>().cloned().or_else(|| p.downcast_ref::<&'static str>().map(|s| (*s).to_owned())).unwrap_or_else(|| "<non-string payload>".into())
     });
     let writer = out.borrow_mut().take();
+    core.stats.borrow_mut().reused_addresses = rec2.borrow().ptrs.reused_addresses as u64;
     Ok(RealRun { raw: raw.borrow().clone(), end: outcome.end, panic_msg, writer, stats: core.stats.borrow().clone(), sched_digest: core.sched_digest.get() })
 }
